@@ -50,7 +50,7 @@ def run_binary(cwd, root, extra_flags=(), include=True):
     diags = set()
     cur = None
     text = err + "\n" + out
-    for m in re.finditer(r"^(/[^\s:]+\.go):(\d+):(\d+): (.*?)(?=^/[^\s:]+\.go:\d+:\d+: |\Z)", text, flags=re.M | re.S):
+    for m in re.finditer(r"^(/[^\n:]+\.go):(\d+):(\d+): (.*?)(?=^/[^\n:]+\.go:\d+:\d+: |\Z)", text, flags=re.M | re.S):
         f, l, c, msg = m.group(1), int(m.group(2)), int(m.group(3)), m.group(4).strip()
         diags.add((f.replace(root, "<R>"), l, c, msg))
     return rc, diags, text
@@ -115,7 +115,8 @@ def relocation(ctx):
     base = ctx.scratch()
     bad, runs = [], 0
     try:
-        roots = [os.path.join(base, "one", "mod"), os.path.join(base, "two", "deeper", "nested", "mod2")]
+        # the third location has a comma, a space and a percent sign in its directory names
+        roots = [os.path.join(base, "one", "mod"), os.path.join(base, "two", "deeper", "nested", "mod2"), os.path.join(base, "with,comma", "sp ace%20x", "mod3")]
         results = {}
         for root in roots:
             os.makedirs(root)
@@ -132,6 +133,10 @@ def relocation(ctx):
                 results[(root, sub)] = diags
                 if not diags:
                     bad.append("started in %s (module at %s): no diagnostics at all; output: %s" % (cwd, root, text[-400:]))
+            # the file filter left at its default (the working directory), started at the module root
+            rc, diags, text = run_binary(root, root, include=False)
+            runs += 1
+            results[(root + " (file filter left at its default)", "")] = diags
         # the same module entered through a symbolic link (the logical path is what $PWD and the go command report):
         # with the file filter given explicitly, and left at its default (the working directory)
         link = os.path.join(base, "link")
@@ -176,7 +181,7 @@ def run(ctx):
     total, pbad = pathfuzz(ctx, 400 if ctx.tier == "quick" else 8000)
     ctx.obligation("correspondence: real RelToCwd / PortionAfterSep (one process per working directory) == model on %d (cwd, name) pairs; relative names identify files" % total, total > 0 and not pbad)
     runs, rbad = relocation(ctx)
-    ctx.obligation("whole tool: the real binary on the same 6-package module at 2 absolute locations x 5 start directories (root, sub-packages, parent via go.work): identical diagnostics up to the module prefix, cross-package and nolint flows included (%d runs)" % runs, runs > 0 and not rbad)
+    ctx.obligation("whole tool: the real binary on the same 6-package module at 3 absolute locations (one with a comma, a space and a percent sign in its path) x 5 start directories, explicit and default file filter (root, sub-packages, parent via go.work): identical diagnostics up to the module prefix, cross-package and nolint flows included (%d runs)" % runs, runs > 0 and not rbad)
     ctx.coverage.update({"evaluations": total + runs, "distinct_nontrivial": total,
                          "rule": "absolute names below / beside / above 3 working directories of different depth, relative names, the cwd itself; all distinct by construction of the generator modulo collisions (counted as evaluations); plus whole-binary runs"})
     ctx.assumptions.append("partial: drivers that start one process per package in that package's directory (go vet) are not covered: finding F12")
